@@ -287,16 +287,21 @@ def k3(ctx, cfg, fs, table):
 
     # parse_option
     body = ctx.look(fs.one(r'^structs::parse_option$'))
-    params = {body.name_of(i): i for i in range(1, body.arg_count + 1)}
-    if 'catch' not in params or 'len' not in params:
-        raise Broken('parse_option: parameters catch/len not found')
+    # parameters by TYPE (their names are free to change): the counter is the `&mut usize`, the catch switch the `bool`
+    by_ty = {}
+    for i in range(1, body.arg_count + 1):
+        by_ty.setdefault(body.local_ty(i), []).append(i)
+    if len(by_ty.get('bool', [])) != 1 or len(by_ty.get('&mut usize', [])) != 1:
+        raise Broken('parse_option: expected one bool (catch) and one &mut usize (progress counter) parameter, found %s' % {k: len(v) for k, v in by_ty.items()})
+    params = {'catch': by_ty['bool'][0], 'len': by_ty['&mut usize'][0]}
+    LEN_NAME = body.name_of(params['len'])
     def atom_extra(w, sw, store, row):
         if sw.kind == 'bool':
             for r in sw.roots:
                 if r.kind == 'bin' and r.extra['op'] in ('Eq', 'Ne', 'Lt', 'Le', 'Gt', 'Ge'):
                     a = provenance(body, r.extra['a'], r.site[0], r.site[1]); b_ = provenance(body, r.extra['b'], r.site[0], r.site[1])
                     def is_len(rs): return bool(rs) and all(x.kind == 'call' and x.call.is_(r'State::len$') for x in rs)
-                    def is_lenp(rs): return bool(rs) and all(x.kind == 'param' and x.what == 'len' for x in rs)
+                    def is_lenp(rs): return bool(rs) and all(x.kind == 'param' and x.what == LEN_NAME for x in rs)
                     if is_len(a) and is_len(b_):
                         return row['samelen'] if r.extra['op'] == 'Eq' else (not row['samelen'] if r.extra['op'] == 'Ne' else None)
                     if r.extra['op'] == 'Lt' and is_len(a) and is_lenp(b_):
@@ -351,7 +356,7 @@ def k3(ctx, cfg, fs, table):
         paths = [p for p in w.run() if p.end == 'return']
         kinds = {ret_kind(p) for p in paths}
         want = {'Ok(Some)'} if progress else {'Ok(None)'}
-        upd = all(any(pl == '(*len)' and val[0] == 'callres' and val[1].endswith('State::len') for (_, pl, val) in p.writes) for p in paths) if progress else True
+        upd = all(any(pl == '(*%s)' % LEN_NAME and val[0] == 'callres' and val[1].endswith('State::len') for (_, pl, val) in p.writes) for p in paths) if progress else True
         ctx.ob('K3.consult', 'parse_option:Ok:progress=%s' % progress, kinds == want and upd,
                'parse_option: inner Ok and remaining count %s the previous one -> %s (expected %s)%s' % (
                    'below' if progress else 'not below', sorted(kinds), sorted(want), '' if upd else '; *len is not updated from args.len()'), where=body.where(), cfg=cfg)
